@@ -656,6 +656,89 @@ func TestVerifC38(t *testing.T) {
 			frontier = next
 			r.Add(fmt.Sprintf("new_states_%s_depth_%d", sid, level+1), int64(len(frontier)))
 		}
+
+		// ---- pre-populated pools: every ordered sequence of 2, 3 and 4 of the 4 operations is stored first,
+		// then every history of 1 and 2 Make / PreferEmpty calls runs on it. Only the histories longer than
+		// the BFS depth are executed (the shorter ones were just covered), so in the quick tier this adds the
+		// full pools (e.g. A B A' B' with two facts twice) that the BFS depth does not reach.
+		if replaying || r.Expired() {
+			continue // a replay is served by the BFS above (its depth is unbounded there)
+		}
+
+		var calls []string
+
+		for _, ev := range env.evs {
+			if ev[0] == 'M' || ev[0] == 'E' {
+				calls = append(calls, ev)
+			}
+		}
+
+		var prefixes [][]string
+
+		var perm func(cur []string, used [c38qNOps]bool)
+
+		perm = func(cur []string, used [c38qNOps]bool) {
+			if len(cur) >= 2 {
+				prefixes = append(prefixes, append([]string{}, cur...))
+			}
+
+			for i := 0; i < c38qNOps; i++ {
+				if used[i] {
+					continue
+				}
+
+				used[i] = true
+				perm(append(cur, fmt.Sprintf("S%d", i)), used)
+				used[i] = false
+			}
+		}
+
+		perm(nil, [c38qNOps]bool{})
+
+		var pjobs [][]string
+
+		for _, pre := range prefixes {
+			for _, c1 := range calls {
+				p1 := append(append([]string{}, pre...), c1)
+				if len(p1) > depth {
+					pjobs = append(pjobs, p1)
+				}
+
+				for _, c2 := range calls {
+					if p2 := append(append([]string{}, p1...), c2); len(p2) > depth {
+						pjobs = append(pjobs, p2)
+					}
+				}
+			}
+		}
+
+		presults := make([]c38qResult, len(pjobs))
+		c38qParallel(len(pjobs), func(i int) { presults[i] = run(pjobs[i]) })
+
+		for i, path := range pjobs {
+			res, id := presults[i], sid+"/"+strings.Join(path, "/")
+
+			r.Transition()
+			r.Trace()
+			r.Eval()
+			r.Outcome(res.obs)
+			r.Max("max_depth", int64(len(path)))
+			r.Add("prepopulated_pool_histories_"+sid, 1)
+
+			if strings.Contains(res.obs, ":again") || c38qTwoOfOneFact(env, path[:len(path)-1], path[len(path)-1]) {
+				r.Nontrivial(id)
+			}
+
+			for _, v := range res.vios {
+				r.Outcome("violation:" + fmt.Sprint(v.sig["kind"]))
+				r.Violation(id, v.sig, v.detail, map[string]any{"search": sid, "events": path})
+			}
+
+			if !seen[res.key] {
+				seen[res.key] = true
+				r.State(sid + "#" + res.key)
+			}
+		}
 	}
 }
 
